@@ -248,6 +248,9 @@ class Pipelines(Harness):
             combos += [(w, t, c) for w in (whole, split) for t in (whole, split) for c in ([0, 0], [1, 1], [0, 1]) if (w, t, c) not in combos]
         for wch, tch, wc in combos:
             out.append(dict(genome="g2", chroms=wc, chunks=wch, track_chunks=tch, what="values"))
+        # per-window sums (axis=-1) of the values under the windows: one number per window, in window order
+        out.append(dict(genome="g2", chroms=[0, 1], chunks=split, track_chunks=split, what="values", rowsum=True))
+        out.append(dict(genome="g2", chroms=[0, 0], chunks=whole, track_chunks=split, what="values", rowsum=True))
         # windows held in memory (any order within a chromosome), track streamed: rows come back in the order of the windows
         out.append(dict(genome="g2", chroms=[0, 0], chunks=whole, track_chunks=split, what="values", windows_in_memory=True))
         out.append(dict(genome="g2", chroms=[0, 1], chunks=whole, track_chunks=split, what="values", windows_in_memory=True))
@@ -312,6 +315,9 @@ class Pipelines(Harness):
             got = compute(mk_track()[mk_win()])
             mem = g.get_track(bg(0, 2))[g.get_intervals(win(0, n), stranded=True)]
             res = dict(streamed=[ctx.lst(got[i].to_array()) for i in range(n)], memory=[ctx.lst(mem[i].to_array()) for i in range(n)])
+            if skel.get("rowsum"):
+                rs = compute(mk_track()[mk_win()].sum(axis=-1))
+                res["rowsum_streamed"] = ctx.lst(rs)
             if skel.get("mean"):
                 sm = compute(mk_track()[mk_win()].mean(axis=0))
                 if hasattr(sm, "starts") and hasattr(sm, "values"):
@@ -373,6 +379,11 @@ class Pipelines(Harness):
                     # the definition for the two proper strands ('.' carries no direction: only the equality above is required)
                     conj.append(z3.Implies(x[f"st{i}"].t == 0, TI(b[j]) == fwd))
                     conj.append(z3.Implies(x[f"st{i}"].t == 1, TI(b[j]) == rev))
+            if "rowsum_streamed" in out:
+                rs = out["rowsum_streamed"]
+                if not isinstance(rs, list) or len(rs) != len(out["memory"]):
+                    return False
+                conj += [TI(g_) == sum([TI(v) for v in row[1:]], TI(row[0])) for g_, row in zip(rs, out["memory"])]
             if "mean_streamed" in out:
                 # column j: the mean over the windows that HAVE a column j (the in-memory definition of a mean over ragged rows)
                 from symnp.core import T
@@ -435,6 +446,11 @@ class Pipelines(Harness):
                 exp = dense[nm][s_:e_] if st == "+" else (dense[nm][s_:e_][::-1] if st == "-" else None)
                 if exp is not None and row != exp:
                     return f"values of the track {dense} under window {(nm, s_, e_, st)}: {row}, expected {exp}"
+            if "rowsum_streamed" in cout:
+                got = [int(v) for v in cout["rowsum_streamed"]] if isinstance(cout["rowsum_streamed"], list) else cout["rowsum_streamed"]
+                if got != [sum(r_) for r_ in mm]:
+                    return (f"per-window sums (axis=-1) of the track {dense} under stranded windows {wins} (rows {mm}): streamed {got}, "
+                            f"expected {[sum(r_) for r_ in mm]}")
             if "mean_streamed" in cout:
                 W = max(len(r_) for r_ in mm)
                 exp = [sum(r_[j] for r_ in mm if len(r_) > j) / sum(1 for r_ in mm if len(r_) > j) for j in range(W)]
